@@ -24,7 +24,7 @@ LEVEL = "proof"
 LEAN = ["SaVerif.Props.C28"]  # imports Model.Event and Lemmas.ExecOnce
 META = {
     "text": "Lean model of the listener registry (class-level deques with lazy update_subclass over a class tree that grows, instance collections, registry keys, once wrappers). dispatch_eq_spec_partial: for EVERY op sequence (listen/remove on classes and instances with insert/once/named, classes and instances created at any time, dispatch) whose class-level listens neither repeat a live key nor put one bare function object on two classes at once, the listeners a dispatch walks are exactly the spec lists (live registrations of the class and its ancestors, inserted first newest first, then registration order, then the instance's own); remove() of a live key always succeeds; the two excluded patterns are machine-checked counterexamples (known findings). exec_once as an LTS with a mutex proved at-most-once for any number of threads and interleavings. Tied to the real sqlalchemy.event by a differential run (call lists + error kinds), by a declarative spec oracle, and for exec_once by trace inclusion: the reads/writes of _exec_once and _exec_once_mutex, Lock creations and acquire/release of real concurrent exec_once runs under the deterministic scheduler are replayed by the Lean driver as runs of the LTS.",
-    "note": "exec_once_at_most_once is proved only for atomic mutex creation (_partial) with a machine-checked counterexample for the code as it is on GIL builds (util.mini_gil = nullcontext) - reproduced with real threads, see known_findings.d/C28.json. Single inheritance only (diamonds: direct oracle on a fixed family only); one event name; retval / _update / _join not modelled. dispatch_eq_spec is proved under RunOk (no repeated live class-level key; a bare function object listens on at most one class at a time) - see *_partial / *_counterexample and known findings; the registry field `ins` of the model is a ghost read only by the spec.",
+    "note": "exec_once_at_most_once is proved only for atomic mutex creation (_partial) with a machine-checked counterexample for the code as it is on GIL builds (util.mini_gil = nullcontext) - reproduced with real threads, see known_findings.d/C28.json. The Lean model is single-inheritance; multiple inheritance (class DAGs, bases created before/after the listens) is decided by a direct oracle on the real code only (each live registration on the MRO fires exactly once; order not asserted); one event name; retval / _update / _join not modelled. dispatch_eq_spec is proved under RunOk (no repeated live class-level key; a bare function object listens on at most one class at a time) - see *_partial / *_counterexample and known findings; the registry field `ins` of the model is a ghost read only by the spec.",
     "technique": "Lean 4 model + invariant proofs; differential correspondence; declarative spec oracle; deterministic scheduler for exec_once",
     "design_ref": "DESIGN.md §3 C28",
 }
@@ -491,10 +491,104 @@ def exec_once_schedules(ctx, n, traces):
             ctx.violation(key, case, detail)
 
 
+
+# ---- multiple inheritance (direct oracle only; the Lean model is single-inheritance) ------------
+# ops: ("S", [base idx...])  new class with these bases      ("L", cls idx, insert)  listen with a FRESH function
+#      ("R", listen no)      remove that registration        ("F", cls idx)          dispatch on a new instance
+# Every listen uses a fresh function object, so neither known deviation pattern can arise.  Oracle
+# (the property itself): a dispatch on class C fires every live registration made on C or on any
+# class in C.__mro__ exactly once and nothing else; remove() of a live registration succeeds.
+MI_DIRECTED = [
+    # two sibling branches listened on BEFORE the multi-base subclass exists
+    [("S", [0]), ("S", [0]), ("L", 0, 0), ("L", 1, 0), ("L", 2, 0), ("S", [1, 2]), ("F", 3), ("R", 2), ("F", 3), ("F", 2)],
+    # the second base's listener arrives through a grandparent
+    [("S", [0]), ("S", [0]), ("S", [2]), ("L", 2, 1), ("L", 1, 0), ("S", [1, 3]), ("F", 4), ("L", 3, 0), ("F", 4)],
+    # diamond: both branches and the root
+    [("S", [0]), ("S", [0]), ("L", 1, 0), ("L", 2, 1), ("S", [2, 1]), ("L", 0, 0), ("F", 3), ("R", 0), ("F", 3), ("R", 2), ("F", 3)],
+]
+
+
+def mi_gen(rng, n):
+    ops, ncls, nl, live = [], 1, 0, []
+    for _ in range(n):
+        r = rng.random()
+        if r < 0.25 and ncls < 7:
+            k = 1 if ncls < 2 or rng.random() < 0.4 else rng.choice([2, 2, 3])
+            ops.append(("S", rng.sample(range(ncls), min(k, ncls))))
+            ncls += 1
+        elif r < 0.6:
+            ops.append(("L", rng.randrange(ncls), int(rng.random() < 0.3)))
+            live.append(nl)
+            nl += 1
+        elif r < 0.72 and live:
+            ops.append(("R", live.pop(rng.randrange(len(live)))))
+        else:
+            ops.append(("F", rng.randrange(ncls)))
+    ops.extend(("F", c) for c in range(ncls))
+    return ops
+
+
+def mi_run(ops):
+    """-> (list of per-op real outputs, list of per-op expected outputs)"""
+    w = World()
+    real, exp = [], []
+    regs = []  # listen no -> [class idx, fn, live]
+    try:
+        for op in ops:
+            if op[0] == "S":
+                try:
+                    w.classes.append(type("M%d" % len(w.classes), tuple(w.classes[b] for b in op[1]), {}))
+                except TypeError:  # inconsistent MRO: the class is a plain copy of its first base
+                    w.classes.append(type("M%d" % len(w.classes), (w.classes[op[1][0]],), {}))
+                real.append("done"); exp.append("done")
+            elif op[0] == "L":
+                fn = w._mk(len(regs))
+                regs.append([op[1], fn, True])
+                w.event.listen(w.classes[op[1]], "ev", fn, **({"insert": True} if op[2] else {}))
+                real.append("done"); exp.append("done")
+            elif op[0] == "R":
+                r = regs[op[1]]
+                try:
+                    w.event.remove(w.classes[r[0]], "ev", r[1])
+                    real.append("done")
+                except Exception as e:  # noqa
+                    real.append("err:" + type(e).__name__)
+                r[2] = False
+                exp.append("done")
+            elif op[0] == "F":
+                cls = w.classes[op[1]]
+                del w.calls[:]
+                cls().dispatch.ev(1)
+                real.append("calls:" + (",".join(map(str, sorted(w.calls))) or "-"))
+                want = sorted(i for i, r in enumerate(regs) if r[2] and w.classes[r[0]] in cls.__mro__)
+                exp.append("calls:" + (",".join(map(str, want)) or "-"))
+        return real, exp
+    finally:
+        w.close()
+
+
+def mi_block(ctx, n):
+    seqs = [[tuple(o) for o in ops] for ops in MI_DIRECTED]
+    for i in range(n):
+        rng = random.Random("%s:mi:%d:%d" % (PID, ctx.seed, i))
+        seqs.append(mi_gen(rng, rng.randint(6, 22)))
+    for ops in seqs:
+        real, exp = mi_run(ops)
+        multi = any(o[0] == "S" and len(o[1]) > 1 for o in ops)
+        ctx.case("mi:" + repr(ops), nontrivial=multi and sum(1 for o in ops if o[0] in "LR") >= 2)
+        ctx.count("multi-inheritance" if multi else "mi-block-single-inheritance")
+        if real != exp:
+            i = next(j for j in range(len(ops)) if real[j] != exp[j])
+            ctx.violation(
+                "multi-inheritance-dispatch", {"mi_ops": [list(o) for o in ops[: i + 1]]},
+                "op %d %r: real %s, registered (live registrations on the MRO, each once) %s" % (i, ops[i], real[i], exp[i]))
+
+
 def run(ctx, deep=False):
     ctx.rule = (
         "random op sequences (5..25 ops; listen/remove on <=6 classes and their instances with insert/once/named/propagate, "
         "subclass and instance creation at any time, dispatch) - 85% avoiding the two known deviation patterns, 15% free; "
+        "multiple-inheritance block (class DAGs with 1-3 bases created before/after class-level listens with fresh functions, removes, dispatch on every class; direct oracle: each live registration on the MRO fires exactly once); "
         "exhaustive sequences over a 13-op alphabet (quick <= 3, thorough <= 4); concurrent exec_once / once dispatch schedules; "
         "non-trivial = >= 2 listen/remove ops; distinct = distinct op sequence"
     )
@@ -514,6 +608,7 @@ def run(ctx, deep=False):
     for ops in exhaustive(4 if thorough else 3):
         one(ctx, ops, cases, impl_out, reqs)
         ctx.count("exhaustive")
+    mi_block(ctx, 6000 if thorough else 1200)
     traces = []
     exec_once_schedules(ctx, 3000 if thorough else 400, traces)
     if ctx.driver_ok():
@@ -532,6 +627,10 @@ def search(ctx, broken):
 
 def replay(ctx, obj):
     c = obj["case"]
+    if "mi_ops" in c:
+        real, exp = mi_run([tuple(o) for o in c["mi_ops"]])
+        print("replay C28 multi-inheritance ops=%s\n  real: %s\n  registered: %s" % (c["mi_ops"], real, exp))
+        return real != exp
     if "ops" not in c:
         from harness import lib_sched
 
